@@ -197,6 +197,7 @@ func labelsOf(c Case, st simStats) []string {
 	add(st.multiHeads, "multi-heads")
 	add(st.mergeErrors > 0, "merge-error")
 	add(st.aeRounds > 1, "anti-entropy>1-round")
+	add(st.ttReads > 0, "history-contains-time-travel-read")
 	add(st.ttMultiParent > 0, "time-travel-below-multi-parent-commit")
 	add(st.ttCounter > 0, "time-travel-with-counter")
 	add(st.ttRemote > 0, "time-travel-on-non-writer-node")
